@@ -52,7 +52,7 @@ def cases(tier, rng):
     for what in ("diff", "bounds"):
         out.append(dict(id=f"c18-{what}-splitting", mode=what, drive="splitting", nfs=[3, 4, 5, 6]))
         out.append(dict(id=f"c18-{what}-helpers", mode=what, drive="helpers", seed=int(rng.integers(1 << 30))))
-    n = 12 if tier == "quick" else 120
+    n = 12 if tier == "quick" else 300
     for i in range(n):
         cfg = cards.rand_config(rng, ptos=(0, 1, 2, 2) if tier == "quick" else (0, 1, 2, 2, 3), sv=True)
         if i % 4 == 0:
@@ -61,7 +61,7 @@ def cases(tier, rng):
         g = cards.rand_grid(rng)
         out.append(dict(id=f"c18-e2e-{i}", mode="e2e", kind=cards.pick(rng, cfg["kinds"]), heavy=cards.pick(rng, ["total", "light", "charm"]), grid=g,
                         points=cards.rand_points(rng, g["xgrid"], n=2, q2lo=3.0, q2hi=3e3, xmax=0.7), **cfg))  # fmt: skip
-    n = 40 if tier == "quick" else 500
+    n = 40 if tier == "quick" else 1500
     for i in range(n):
         cfg = cards.rand_config(rng, ptos=(0, 1, 2, 3), sv=True)
         g = cards.rand_grid(rng)
